@@ -153,7 +153,7 @@ class Bench:
                 j = op[1]
                 sc = self.scope[j]
                 if j != t and sc is not None and self.in_op[j]:
-                    self.note_cancel(j)
+                    self.note_cancel(j, "scope")
                     sc.cancel()
                     self.scan()
                 continue
@@ -161,7 +161,7 @@ class Bench:
                 j = op[1]
                 tj = self.tasks[j]
                 if j != t and tj is not None and self.in_op[j] and not tj.done():
-                    self.note_cancel(j)
+                    self.note_cancel(j, "native")
                     tj.cancel()
                     self.scan()
                 continue
@@ -196,13 +196,13 @@ class Bench:
             finally:
                 self.scope[t] = None
 
-    def note_cancel(self, j: int) -> None:
+    def note_cancel(self, j: int, how: str = "") -> None:
         self.cancel_hits += 1
         tj = self.tasks[j]
         w = tj._fut_waiter if tj is not None else None  # type: ignore[attr-defined]
         if w is not None and w.done() and not w.cancelled():
             self.handover_cancels += 1
-        self.events.append(("cancel", j, None, ""))
+        self.events.append(("cancel", j, None, how))
 
     async def main(self) -> None:
         self.adapter.setup(self.case.get("cfg"), self)
